@@ -13,7 +13,7 @@ static qnode Q[QMAX]; static int nq;
 static qitem *IT; static int nitems;
 static qop *client_ops[MAX_CLIENTS]; static int client_nops[MAX_CLIENTS]; static int nclients;
 static int next_op_idx;
-static int spec_by_clients, spec_ready; static sim_event spec_ev;
+static int spec_by_clients, spec_ready, spec_ready2; static sim_event spec_ev, spec_ev2;
 static dispatch_group_t grp;
 static sim_event gate_ev;
 static int items_done, items_expected, clients_done;
@@ -432,7 +432,8 @@ static void create_queues(void) {
 				n->spec[k] = (void *)(uintptr_t)(0x1000 + i * 16 + k);
 				// either here, one after the other, or by the client threads at once (spec_by_clients)
 				if (!spec_by_clients) dispatch_queue_set_specific(n->q, &keys[k], n->spec[k], NULL);
-			}
+				else n->spec_dup[k] = g_chance(1, 3);
+			} else if (spec_by_clients && g_chance(1, 4)) n->spec_temp[k] = 1;
 		}
 	}
 }
@@ -748,12 +749,21 @@ static void *client_main(void *arg) {
 	if (spec_by_clients) {
 		// the queue-specific values are set by all client threads at once, each its own keys (key k by client k mod n),
 		// also on queues that have no specific data yet; nobody submits anything before every call has returned
-		for (int i = 0; i < nq; i++) for (int k = 0; k < 4; k++) if (Q[i].spec[k] && k % nclients == c) {
-			dispatch_queue_set_specific(Q[i].q, &keys[k], Q[i].spec[k], NULL);
-			sim_point();
+		// some keys are set by two threads at once (same value), some are set by two threads and removed again by one of
+		// them once every set has returned: such a key must then read as if it had never been set on that queue
+		for (int i = 0; i < nq; i++) for (int k = 0; k < 4; k++) {
+			bool mine = k % nclients == c, second = (k + 1) % nclients == c && nclients > 1;
+			if (Q[i].spec[k] && (mine || (second && Q[i].spec_dup[k]))) { dispatch_queue_set_specific(Q[i].q, &keys[k], Q[i].spec[k], NULL); sim_point(); }
+			if (Q[i].spec_temp[k] && (mine || second)) { dispatch_queue_set_specific(Q[i].q, &keys[k], (void *)(uintptr_t)(0x9000 + i * 16 + k), NULL); sim_point(); }
 		}
 		if (++spec_ready == nclients) sim_event_signal(&spec_ev);
 		else sim_event_wait(&spec_ev, LIVENESS_NS);
+		for (int i = 0; i < nq; i++) for (int k = 0; k < 4; k++) if (Q[i].spec_temp[k] && k % nclients == c) {
+			dispatch_queue_set_specific(Q[i].q, &keys[k], NULL, NULL);
+			if (dispatch_queue_get_specific(Q[i].q, &keys[k])) h_viol("get-specific", "dispatch_queue_get_specific(q%d, key%d) still returns a value after the key was removed (it had been set by two threads at once)", i, k);
+		}
+		if (++spec_ready2 == nclients) sim_event_signal(&spec_ev2);
+		else sim_event_wait(&spec_ev2, LIVENESS_NS);
 	}
 	run_ops(client_ops[c], client_nops[c], c, NULL);
 	clients_done++;
